@@ -166,12 +166,35 @@ def record(rows, tag):
     return recs, stats
 
 
+ADM_CAP = 6000      # see judge(); the largest run of the grid on the unmodified limiter has ~5 200 admitted calls
+ADM_BUDGET = 2.5e8  # bound on sum(n^2) over the runs of one judge call (the unmodified limiter needs ~0.6e8)
+TRUNCATED = []
+
+
+def caps_for(recs):
+    cap = ADM_CAP
+    while cap > 1500 and sum(min(len(r["adm"]), cap) ** 2 for r in recs) > ADM_BUDGET:
+        cap = int(cap * 0.8)
+    return cap
+
+
 def judge(recs, tag, workers=6):
     """TLC evaluates RateEnvelope on every recorded run; returns {run: verdict}, TlcResult."""
     path = os.path.join(scratch(), "c19.%s.judge.ndjson" % tag)
     with open(path, "w") as f:
+        cap = caps_for(recs)
         for r in recs:
-            f.write(json.dumps({k: r[k] for k in ("run", "rate", "burst", "grate", "gburst", "conc", "nt", "adm", "ref")}) + "\n")
+            j = {k: r[k] for k in ("run", "rate", "burst", "grate", "gburst", "conc", "nt", "adm", "ref")}
+            if len(j["adm"]) > cap:
+                # The upper clause costs O(n^2) in the admitted calls of a run; a limiter that over-admits massively
+                # produces recordings several times the size the grid is dimensioned for.  Judging the first `cap`
+                # admitted calls (by return time) is sound: every window considered contains a subset of the real
+                # admitted calls.  The lower clause needs all admitted calls, so the refusals of such a run are skipped.
+                j["adm"] = j["adm"][:cap]
+                j["ref"] = []
+                TRUNCATED.append(r["run"])
+            f.write(json.dumps(j) + "\n")
+    log("[judge %s] %d runs, largest %d admitted calls, %d truncated to %d" % (tag, len(recs), max([len(r["adm"]) for r in recs] or [0]), len(TRUNCATED), cap))
     r = tlc("RateEnvelope", workers=workers, env={"TRACE": path}, consts=SLACK, timeout=3000, xmx="6g")
     out = {v["run"]: v for v in r.json_lines if isinstance(v, dict) and "run" in v}
     missing = [x["run"] for x in recs if x["run"] not in out]
